@@ -464,6 +464,34 @@ theorem api_call_returns (c : Nat) (s : S) (h : Reachable c s) :
     (∀ l, l < s.n → l ≠ 0 → s.closed l = false → s.holder = .api → Step s (unlock (doCloseChild s l))) :=
   ⟨fun hf => .apiLock s hf, lock_released h, fun l hl h0 ho ha => .closeChild s l hl h0 ha ho⟩
 
+/-- **the API holder's OWN body is enabled** (`api_call_returns` / `close_returns` witness "the holder can release the lock"
+    for an API holder by the memoryless step `apiRead`; this is the statement about the step the caller really has):
+    whoever holds the lock as a caller of `Use`, `SetCap`, `Limiter.New` or child `Close` — any limiter of the tree, any
+    amount or capacity — can take the step that executes THAT call's body, and that step releases the lock; nothing in
+    a body waits for anybody (`answer_send_never_blocks`, `every_send_finds_room`) -/
+theorem api_holder_can_finish_its_call (s : S) (ha : s.holder = .api) :
+    (∀ l amt, l < s.n → Step s (micro s (.use l amt)) ∧ (micro s (.use l amt)).holder = .free) ∧
+    (∀ l k, l < s.n → Step s (micro s (.setCap l k)) ∧ (micro s (.setCap l k)).holder = .free) ∧
+    (∀ p k, p < s.n → Step s (micro s (.newChild p k)) ∧ (micro s (.newChild p k)).holder = .free) ∧
+    (∀ l, l < s.n → l ≠ 0 → Step s (micro s (.closeChild l)) ∧ (micro s (.closeChild l)).holder = .free) := by
+  have key : ∀ m, (micro s m).holder = .free → Step s (micro s m) ∧ (micro s m).holder = .free := by
+    intro m hf
+    rcases micro_step s m with h | h
+    · rw [h, ha] at hf; cases hf
+    · exact ⟨h, hf⟩
+  refine ⟨fun l amt hl => key _ ?_, fun l k hl => key _ ?_, fun p k hp => key _ ?_, fun l hl h0 => key _ ?_⟩
+  · simp only [micro, hl, ha, and_self, if_true]
+    split
+    · rfl
+    · split
+      · rfl
+      · split
+        · rfl
+        · split <;> rfl
+  · simp only [micro, hl, ha, and_self, if_true]; rfl
+  · simp only [micro, hp, ha, and_self, if_true]; split <;> rfl
+  · simp only [micro, hl, h0, ha, and_self, if_true, ne_eq, not_false_eq_true]; split <;> rfl
+
 /-- **the ticker goroutine is never blocked for ever**: in every reachable state in which it waits for the lock, the
     lock is free (its `Lock()` is enabled) or its holder can release it by steps of its own; inside its critical
     sections its own steps are enabled -/
@@ -487,7 +515,11 @@ theorem ticker_never_blocked (c : Nat) (s : S) (h : Reachable c s) :
     Go `int`s, for every limiter and every amount, the test `available >= amount` — `available` the minimum of
     `capacity - used` along the chain, every subtraction wrapping — decides exactly what the model's `fits` decides;
     the ticker's guard `root.capacity-root.used > 0` is `used < capacity`; and after a successful test `used += amount`
-    yields the model's `charge` for every limiter (no wrap).  This is what `int_arithmetic_exact` only argued in prose. -/
+    yields the model's `charge` for every limiter (no wrap).  This is what `int_arithmetic_exact` only argued in prose.
+    (Scope: the operands are the MODEL's naturals; each subtraction / addition of the code goes through `wrap64` once.  It
+    is the one-step arithmetic fact behind using naturals in the model, not a second execution of the code: the tie of
+    this arithmetic to the Go code is the correspondence run with capacities and amounts at `MaxInt`, `MaxInt-1`,
+    `MaxInt-10` … and usage summing past `MaxInt`, compared through answers and the white-box state dump.) -/
 theorem go_int_arithmetic_is_model_arithmetic (c : Nat) (s : S) (h : Reachable c s) (hty : s.capHi ≤ maxInt)
     (l : Nat) (hl : l < s.n) (amt : Nat) :
     fitsGo s.cap s.used (s.chain l) amt = fits s.cap s.used (s.chain l) amt ∧
@@ -734,11 +766,11 @@ theorem window_exploration_is_complete (n : Nat) (s s' : S) (ths : List (List Mi
     some s' ∈ explore fuel s ths ∧ (∀ t m, enabledM t m = false → micro t m = t) :=
   ⟨explore_complete h fuel hf, micro_of_not_enabled⟩
 
-/-- **`Cap(true)` follows `SetCap` at any depth** (round 7, `seeded/ind7-c16-a`; `cap_true_is_smallest_cap_of_chain` is about
-    every reachable state, i.e. any tree and any history of `SetCap` anywhere in it — this is its instance two levels
-    up): root 9 → child 8 → grandchild 7; after `SetCap(3)` on the ROOT the grandchild's `Cap(true)` is 3, and a request of
+/-- **`Cap(true)` follows `SetCap` two levels up** (round 7, `seeded/ind7-c16-a`; a non-vacuity instance: the statement for
+    ANY depth and any history of `SetCap` anywhere in the tree is `cap_true_is_smallest_cap_of_chain`, which is about
+    every reachable state): root 9 → child 8 → grandchild 7; after `SetCap(3)` on the ROOT the grandchild's `Cap(true)` is 3, and a request of
     5 on the grandchild — between the new and the old cap — is refused at once, not queued -/
-theorem cap_true_follows_setcap_at_any_depth :
+theorem cap_true_follows_setcap_two_levels_up :
     capOf depth3 2 true = 7 ∧ capOf depth3Set 2 true = 3 ∧ capOf depth3Set 1 true = 3 ∧ depth3Set.chain 2 = [2, 1, 0] ∧
     exec depth3Set (.use 2 5) = answer depth3Set .errCap := by
   refine ⟨by decide, by decide, by decide, by decide, ?_⟩
